@@ -328,6 +328,9 @@ def option_orders ():
     return out
 # end def option_orders
 
+# field strengths whose real and imaginary part are finite but whose magnitude is not (1.5e308 each)
+EDGE = EDGE + [ [['-f', '7.1'], ['-w', '10,0,0,0,0,0,10,0.01'], ['--excitation-pulse', '5'], ['--option', 'far-field-absolute'], ['--theta', '45,0,1'], ['--phi', '0,0,1']
+                , ['--ff-power', '1e300'], ['--ff-distance', d]] for d in ('3.307739118246094e-158', '3.2e-158', '3.25e-158', '3.35e-158', '3.4e-158', '3.5e-158', '3e-158') ]
 EDGE = EDGE + pole_cases () + dead_source_cases () + option_orders ()
 
 def plan (tier, seed):
